@@ -2179,14 +2179,15 @@ func contiguousUpTo(r *RepData, n int) bool {
 //@   wiring
 //@   nowrap assumed
 //@   requires chunkDur > 0
+//@   callsite AddEmsg requires eventsTravelWithTheFirstChunk: arg0 == ch.frag && len(chunks) == 0 && ch.styp == seg.Styp
 //@   callsite append:chunks requires chunkDurCoversItsSamples: vararg0.dur == uint64(thisChunkDur) || (vararg0.dur == uint64(chunkDur) && int(thisChunkDur) <= chunkDur)
 //@   callsite append:chunks requires stypOnlyOnFirst: (len(chunks) == 0 ==> vararg0.styp == seg.Styp) && (len(chunks) >= 1 ==> vararg0.styp == nil)
-//@   loop 2 invariant chunkNr == len(chunks)+1 && chunkNr >= 1 && totalDur >= 0 && fresh(chunks)
-//@   loop 2 invariant contiguousDecodeTimes: sampleDecodeTime == segMeta.newTime + uint64(totalDur)
-//@   loop 2 invariant int(thisChunkDur) >= 0 && int(thisChunkDur) <= totalDur
-//@   loop 2 invariant completedReachNominal: totalDur - int(thisChunkDur) >= chunkDur*(chunkNr-1)
-//@   loop 2 invariant partialBelowNominal: thisChunkDur > 0 ==> totalDur < chunkDur*chunkNr
-//@   loop 2 invariant stypOfCurrent: (len(chunks) == 0 ==> ch.styp == seg.Styp) && (len(chunks) >= 1 ==> ch.styp == nil)
+//@   loop 3 invariant chunkNr == len(chunks)+1 && chunkNr >= 1 && totalDur >= 0 && fresh(chunks)
+//@   loop 3 invariant contiguousDecodeTimes: sampleDecodeTime == segMeta.newTime + uint64(totalDur)
+//@   loop 3 invariant int(thisChunkDur) >= 0 && int(thisChunkDur) <= totalDur
+//@   loop 3 invariant completedReachNominal: totalDur - int(thisChunkDur) >= chunkDur*(chunkNr-1)
+//@   loop 3 invariant partialBelowNominal: thisChunkDur > 0 ==> totalDur < chunkDur*chunkNr
+//@   loop 3 invariant stypOfCurrent: (len(chunks) == 0 ==> ch.styp == seg.Styp) && (len(chunks) >= 1 ==> ch.styp == nil)
 
 // SegmentBaseType.GetTimescale of the dash-mpd library: @timescale, 1 if absent (its documented default).
 //@ extern func (github.com/Eyevinn/dash-mpd/mpd.SegmentBaseType).GetTimescale(s) (r)
